@@ -11,8 +11,11 @@ ASSUMPTIONS = GC.ASSUMPTIONS + ["two O lines sharing an identifier keep their re
                                 "every step of every P line is compatible with exactly one link of the document (F30)"]
 LEVEL_TEXT = ("PARTIAL. Theorems in coq/Props/C03.v: in every state reached by any history (so for every arrival order) "
               "identifiers are unique, hence no placeholder coexists with a definition of its identifier, and the graph is "
-              "closed (C02); the version clause is the theorem C13_order_independent. Not proved: equality of the canonical "
-              "observation of two arrival orders of one document. That clause is decided (i) by the correspondence: every "
+              "closed (C02); the version clause is the theorem C13_order_independent; the records of the Gfa that are not "
+              "placeholders are exactly the added lines in arrival order (an accepted addition that meets no stored record of its "
+              "identifier appends the added line and changes no other record), so two arrival orders of the same lines, both read "
+              "completely, hold the same records (Proofs/RealsP.v; documents without group merges and complement duplicates). "
+              "Not proved: equality of the reference targets and back-reference sets of two orders. That clause is decided (i) by the correspondence: every "
               "explored order is run on gfapy and on Model/Graph.v and compared after every line, and (ii) by the oracle: all "
               "permutations of documents of <= 6 lines and 30 shuffles of larger ones must give one canonical observation "
               "(version, written records with a link identified with its complement, identifiers, reference targets, "
@@ -70,6 +73,8 @@ CORPUS = [
     # internal alignment, a dovetail, a gap and a fragment
     ('gfa2', ['S\ta\t10\t*', 'S\tb\t4\t*', 'E\tc1\tb+\ta+\t0\t4$\t3\t7\t*', 'E\tc2\ta-\tb+\t2\t6\t0\t4$\t4M',
               'E\ti1\ta+\tb-\t2\t5\t1\t3\t*', 'G\tg1\ta+\tb-\t3\t*']),
+    # gaps listed by a set and by an ordered group
+    ('gfa2', ['S\ta\t10\t*', 'S\tb\t10\t*', 'G\tg1\ta+\tb-\t5\t*', 'U\tu1\ta g1', 'O\to1\ta+ g1+ b-']),
     ('gfa2', ['S\ta\t10\t*', 'S\tb\t10\t*', 'E\tw\ta+\tb-\t0\t10$\t0\t10$\t*', 'E\td\tb+\ta+\t8\t10$\t0\t2\t2M',
               'F\ta\tx-\t0\t3\t0\t3\t*', 'U\tu\tw d a']),
 ]
@@ -87,7 +92,8 @@ def run(ctx, deep, model_ok):
         else:
             ver = 'gfa1' if i % 2 else 'gfa2'
             lines, info = GL.clean_doc(rng, ver)
-        if GL.known_pattern([('add', l) for l in lines]):
+        kp = GL.known_pattern([('add', l) for l in lines])
+        if kp and kp[0] != 'F28':      # F28 is about removals; a gap listed by a group is an ordinary document here
             continue
         if len(lines) > 6 and rng.random() < 0.5:
             lines = lines[:6] if has_forward_ref(list(reversed(lines[:6]))) else lines
